@@ -524,6 +524,25 @@ func registerMisc(t map[string]intrinsic) {
 		t[pk+".Uint32N"] = intn
 		t[pk+".Uint64N"] = intn
 	}
+	// dns.CanonicalName = strings.Map(ASCII-lower, Fqdn(s)). For bytes < 0x80 that is
+	// a per-byte lowering; other bytes are outside the model (path cut and listed).
+	t["github.com/miekg/dns.CanonicalName"] = func(ex *Exec, caller *frame, fn *ssa.Function, args []Value) (Value, *goPanic) {
+		fq := fn.Pkg.Func("Fqdn")
+		if fq == nil {
+			panic(engineErr("dns.Fqdn not found"))
+		}
+		r, pan := ex.callFunction(fq, args, nil, caller)
+		if pan != nil {
+			return nil, pan
+		}
+		in := r.(Str)
+		out := make([]*Term, len(in.B))
+		for i, b := range in.B {
+			ex.needASCII(b, "dns.CanonicalName")
+			out[i] = ex.lowerASCII(b)
+		}
+		return Str{out}, nil
+	}
 	t["os.LookupEnv"] = lookupEnv
 	t["syscall.Getenv"] = lookupEnv
 	t["os.Getenv"] = func(ex *Exec, caller *frame, fn *ssa.Function, args []Value) (Value, *goPanic) {
